@@ -1,11 +1,13 @@
 (* Token-level entry point for property C15 (DNS route selection).
    Case line (harness/src/bin/c15.rs):
-     1 <table> <query name> rd  |  res nhits hit*
+     1 <table> <query name> rd  |  res rcode nhits hit*
    <table> = nroutes { kind nsrv srv* nsuf <name>* }*     kind 0 = forge-nxdomain, 1 = forward
    <name>  = nlabels { len octet* }*
    res: 0 reply relayed from upstream, 1 Blocked, 2 NoRouteConfigured, 3 NotAuthoritative,
         4 another error, 5 panic, 6 the configuration did not load, 7 the loaded table is
         not the table that was written
+   rcode: the rcode of the reply the listener builds for an error result (create_in_error);
+        65535 when a reply was relayed or nothing was built.
    hits: the (sorted, distinct) servers that received at least one datagram for this query.
    Definitions only. *)
 From Erbium Require Import Lib.Base Model.DnsRoute.
@@ -51,13 +53,14 @@ Definition tok_route (ts : list N) : option (route * list N) :=
 
 Definition tok_table : list N -> option (table * list N) := tok_counted tok_route.
 
+Definition rc_tok (r : rresult) : N := match rcode_of r with Some c => c | None => 65535 end.
 Definition put_result (r : rresult) : list N :=
   match r with
-  | RForward s => [0; 1; s]
-  | RBlocked => [1; 0]
-  | RNoRoute => [2; 0]
-  | RNotAuth => [3; 0]
-  | RPanic => [5; 0]
+  | RForward s => [0; rc_tok r; 1; s]
+  | RBlocked => [1; rc_tok r; 0]
+  | RNoRoute => [2; rc_tok r; 0]
+  | RNotAuth => [3; rc_tok r; 0]
+  | RPanic => [5; rc_tok r; 0]
   end.
 
 Definition toks_eqb := list_eqb N.eqb.
@@ -87,7 +90,7 @@ Definition check_route (ts : list N) : list N :=
       let m := decide rt q rdb in
       if res =? 7 then v_viol 5
       else if res =? 6 then v_viol 6
-      else if (match impl_rest with 0 :: _ => false | _ => true end)
+      else if (match impl_rest with _ :: 0 :: _ => false | _ => true end)
               && ((res =? 1) || (res =? 2) || (res =? 3)) then v_viol 2
       else if negb (existsb (toks_eqb impl) expected) then v_viol 1
       else if negb (toks_eqb impl (put_result m)) then v_diff (put_result m)
